@@ -1,6 +1,7 @@
 """C12 — each request is answered at most once, to the right requester
 (mptcore/message/message_id.c, mptcore/event/reply_deferrable.c, reply_set.c, context_reply.c; their mptio users
-mptio/connection/connection_dispatch.c, mptio/output_remote.c, mptio/stream/stream_sync.c, stream_reply.c, stream_input.c)."""
+mptio/connection/connection_dispatch.c, mptio/output_remote.c, mptio/stream/stream_sync.c, stream_reply.c, stream_input.c).
+Round 6: case kinds nrc (mpt_context_reply without context) and sin mode Q<n> (roll-back of mpt_stream_reply), coq/C12/SrmModel.v, SrmProofs.v."""
 import itertools
 from vcheck import DiffProperty
 
@@ -33,7 +34,67 @@ COMMITTED = {
     "stream_input_skip": True,       # C12_stream_input_skip.diff      stream_input.c: dispatch(NULL) consumes the message twice, every later dispatch fails
     "dgram_next_pollout": True,      # C12_dgram_next_pollout.diff     output_remote.c: next(POLLOUT) sends the datagram received before back to the peer
     "close_stream_dangling": True,   # C12_close_stream_dangling.diff  connection_fini.c: closed stream stays in out.buf; a datagram socket set afterwards uses it as buffer
+    # round 6 (roll-back of mpt_stream_reply, sin mode Q<n>); flip to True after the commit, nothing else
+    "reply_rollback_active": True,   # C12_reply_rollback_active.diff  stream_push.c: deleting the message in progress is handled like appended data (MesgActive set for good, length arithmetic on the position: crash)
+    "reply_rollback_blocks": True,   # C12_reply_rollback_blocks.diff  encode_cobs.c: deleting the message in progress keeps its finished COBS blocks (glued in front of the next frame)
+    "reply_id_partial": True,        # C12_reply_id_partial.diff       stream_reply.c: an id pushed only in part is sent (truncated id on the wire)
 }
+
+
+def q_attempt(cap, m):
+    """COBS queue of cap bytes, empty: (accepted, bytes consumed, a block was finished among them) for the frame of message m"""
+    u = c = 0
+    closed = False
+    for k, b in enumerate(m):
+        nu, nc, ncl = u, c, closed
+        if nc == 0:
+            nu, nc = nu + 1, 1
+        if b == 0:
+            nu, nc, ncl = nu + 1, 1, True
+        elif nc + 1 == 255:
+            nu, nc, ncl = nu + 2, 1, True
+        else:
+            nu, nc = nu + 1, nc + 1
+        if nu > cap:
+            return False, k, closed
+        u, c, closed = nu, nc, ncl
+    need = 2 if c == 0 else u + 1
+    return need <= cap, len(m), closed
+
+
+def q_needs(t):
+    """sin case with a write queue of fixed size (mode Q<n>): patches the roll-back of its refused replies depends on"""
+    need = set()
+    il, cap = int(t[1]), int(t[2][1:])
+    i = 3
+    while i < len(t):
+        n = ARITY.get(t[i], 0)
+        o = t[i:i + n + 1]
+        i += n + 1
+        if o[0] not in ("req", "rqd") or not il:
+            continue
+        b = bytes.fromhex(o[1]) if o[1] != "-" else b""
+        if len(b) < il or b[0] & 0x80 or not any(b[:il]):
+            continue
+        mid = bytes([b[0] | 0x80]) + b[1:il]
+        if o[0] == "req":
+            reps, code = [o[3], o[4]][:int(o[2])], int(o[5])
+        else:
+            reps, code = [o[2]], int(o[3])
+        atts = [mid + (bytes.fromhex(r) if r not in ("null", "-") else b"") for r in reps]
+        atts.append(mid + bytes([1, (code if code < 0 else 0) & 0xff]))
+        for m in atts:
+            ok, k, closed = q_attempt(cap, m)
+            if ok:
+                break
+            if k == 0:
+                continue            # refused before anything was queued: no roll-back
+            need.add("reply_rollback_active")
+            if closed:
+                need.add("reply_rollback_blocks")
+            if k < il:
+                need |= {"reply_id_partial", "reply_rollback_blocks"}
+    return need
 
 
 def con_needs(case):
@@ -41,7 +102,7 @@ def con_needs(case):
     t = case.split()
     if t[0] == "sin":
         items = [x for x in t[3:] if x in ("req", "rqd", "rq0", "scv", "srf")]
-        need = set()
+        need = q_needs(t) if t[2][0] == "Q" else set()
         if "rq0" in items[:-1]:
             need.add("stream_input_skip")       # a skipped message breaks every later dispatch
         return need
@@ -157,7 +218,7 @@ class C12(DiffProperty):
     harness_src = "c12_reply.c"
     extra_harness_flags = ["-Wl,--wrap=mpt_queue_prepare"]      # write-queue limit of the sin cases (mode L<n>)
     libs = ["mptcore", "mptio"]
-    rule = ("five case kinds. id2buf: id x header width (ids 0, 2^k-1, 2^k, 2^k+1 for k=1..64, 2^63, 2^64-1 and random; "
+    rule = ("case kinds id2buf, buf2id, sin, sinx, ctx, con, rsv, nrc. id2buf: id x header width (ids 0, 2^k-1, 2^k, 2^k+1 for k=1..64, 2^63, 2^64-1 and random; "
             "widths 0..9 exhaustively for the boundary ids, 0..12 for random ones), written into an exact-size heap buffer and read "
             "back with buf2id. buf2id: arbitrary byte strings of 0..12 bytes (leading zeros, >8 significant bytes, top bits set). "
             "sin: mptio stream input over a socketpair (id width 0..9, read-only or bidirectional), 1..3 COBS-framed messages "
@@ -198,6 +259,15 @@ class C12(DiffProperty):
             "without queue (every reply fails), handler asking for a deferred handle (refused), dispatch without handler, convert / "
             "addref / clone, 72 argument combinations of mpt_stream_input (id width 0/2/255/256/1000, modes, coding 0 / COBS, bad "
             "descriptor). "
+            "Round 6: nrc = mpt_context_reply() WITHOUT reply context (code 0 / >0 / <0 / outside char x no text, empty, short, 40 and "
+            "300 bytes; result and what appears on descriptor 2). sin mode Q<n> = stream input whose write queue is given exactly n "
+            "bytes and refuses to grow (mpt_queue_prepare wrapped: what a failing realloc does), so mpt_stream_reply has to roll back: "
+            "id 0001 x replies of 0..6 bytes (with / without zero bytes) x every n = 0..13, replies of 248..258 bytes without zero byte "
+            "(COBS block boundary) x n around the frame size, ids of 4 / 8 / 254 / 255 bytes in queues smaller than the id, 700 random "
+            "cases (1..3 requests, two replies each from 0..300 bytes with 0 / 10 / 50 % zero bytes, deferred-handle request, handler "
+            "status, n = frame size of one of the replies -40..+2 or 0..11): the reply fails before anything is queued / inside the id / "
+            "inside the message / at the delimiter, the handler's second reply or the generic answer is the retry, a second request "
+            "follows on the same stream. "
             "Only those whose behaviour does not depend on a patch of docs/C12_*.diff that is not yet committed are run "
             "(constant COMMITTED in props/c12.py). A case is non-trivial when it is an id case with id != 0, a history that arms at "
             "least one request, or a connection history; distinct = distinct case text")
@@ -235,9 +305,20 @@ class C12(DiffProperty):
                 "mpt_command_reserve is also modelled for any id limit (reserve_max, maxid_raw = its switch) and run directly (rsv). "
                 "mptio/stream/stream_input.c (streamMessage/streamReply/streamDefer/streamDispatch/streamConv + stream_reply.c) is modelled "
                 "at correspondence level only (sin_request of ReplyModel.v, sin_request2 / sin_skip / sin_conv / sin_create_ok of "
-                "SinModel.v, no theorem; dispatch without handler AS PATCHED by docs/C12_stream_input_skip.diff); the failure paths of "
-                "mpt_stream_reply behind its first push (the write queue cannot grow = realloc failure) are reachable in the harness "
-                "(sin mode L<n>, mpt_queue_prepare wrapped) but outside the model and not generated: see docs/notes_C12.md Part 4")
+                "SinModel.v, no theorem; dispatch without handler AS PATCHED by docs/C12_stream_input_skip.diff). "
+                "Round 6: mptio/stream/stream_reply.c (every branch) with mptio/stream/stream_append.c and the three uses of "
+                "mptio/stream/stream_push.c (data, end of message, deletion of the message in progress) is transcribed in "
+                "coq/C12/SrmModel.v AS PATCHED by docs/C12_reply_rollback_active.diff, C12_reply_rollback_blocks.diff and "
+                "C12_reply_id_partial.diff: the write queue is the list of complete messages it holds + the bytes of the message in "
+                "progress + MPT_STREAMFLAG(MesgActive); how much a push takes is a parameter (any behaviour of realloc) for the theorems "
+                "and 'COBS queue of n bytes that cannot grow' (encoder state = bytes used + code of the open block, entry check of "
+                "mpt_encode_cobs for a nearly full block included) for the run; sin_request_q = stream_input.c over that transport "
+                "(streamReply turns every failure into BadArgument and leaves the request open). S for these cases is computed "
+                "differently: a reply is accepted iff the size of its complete frame fits (s_fits). mpt_queue_push / mpt_encode_cobs "
+                "themselves stay with C01/C02 (only the deletion branch of mpt_encode_cobs is executed here and nowhere else). "
+                "The branch of mptcore/event/context_reply.c without reply context is the function ctx_reply_none of ReplyModel.v "
+                "(result + text on stderr when stderr is not a terminal; no theorem - there is no context it could act on): "
+                "correspondence level")
     trusted = ["harness/c12_reply.c: the transport is the harness' send callback (logs rd->val[0..len) and the flattened message, "
                "answers from the script); state is read directly from the structures (reply_deferrable.c is #included), "
                "frees are observed by wrapping malloc/free of that file",
@@ -252,7 +333,11 @@ class C12(DiffProperty):
                "small convertable of its own for set_property(\"\"), listens on /tmp/c12conn_<pid>.sock; descriptor 1 is pointed to stderr "
                "(the default logger prints messages of type 0 to stdout), the case output goes to a duplicate; the harness' answer handler "
                "returns -3 for an answer that starts with ff; harness/c12_reply.c is linked with -Wl,--wrap=mpt_queue_prepare (refuses "
-               "only in sin mode L<n>, which the generator does not use beyond one case that never hits the limit)",
+               "only in sin mode L<n>, which the generator does not use beyond one case that never hits the limit, and in mode Q<n>, "
+               "where the harness sizes the write queue with mpt_queue_resize(n) and the wrapper refuses every growth of that queue); "
+               "the harness calls next(POLLIN) while the input descriptor has data (the input reads 64 bytes per call), flushes the "
+               "stream after every dispatch (each dispatch starts with an empty, aligned write queue) and hands a reply of more than 2 "
+               "bytes over as base part + one continuation part; nrc cases: descriptor 2 is pointed to a temporary file around the call",
                "the caller protocol: a context is used only while the caller holds a reference, a deferred handle only until "
                "its reply() consumed it (other uses are use-after-free, outside the interface)"]
     level_text = ("proof: Coq theorems (coq/C12/Properties.v) over the transcribed mechanism, for every id < 2^64, every header width and "
@@ -286,6 +371,16 @@ class C12(DiffProperty):
                   "nothing sent), C12_conn_reopen_keeps_context, C12_conn_sync_end_keeps_ids (an answer handler that fails ends "
                   "mpt_stream_sync without losing a waiter), C12_conn_log_is_one_message, C12_reserve_any_limit + "
                   "C12_reserve_any_limit_table (mpt_command_reserve for every id limit of its switch). "
+                  "Round 6, the stream as transport of a reply (stream_reply.c as patched): C12_stream_reply_atomic (for EVERY behaviour "
+                  "of the write queue - any pattern of pushes taken in part or refused - a reply either queues exactly one complete "
+                  "message 'id ++ message' behind what was queued, or returns an error and leaves the queue exactly as it was: no "
+                  "partial frame, no truncated id, nothing left in progress), C12_stream_reply_busy (refused without effect while "
+                  "another message is composed), C12_stream_reply_stays_idle (a refused reply does not block the next one), "
+                  "C12_stream_reply_accepted_fits (queue of n bytes: an accepted reply is a frame that fits), C12_stream_replies_wire "
+                  "(any sequence of replies and retries: the queue holds exactly the accepted ones, complete, each with its own id, in "
+                  "order) - this is what the transport script of C12_retry_after_reject / C12_at_most_one_reply assumes of a "
+                  "transport that rejects. Not proved, compared on every run instead: a reply that fits is accepted (S computes "
+                  "acceptance from the frame size). "
                   "The models are tied to the code on every run by "
                   "differential execution (boundary ids x widths, exhaustive short histories, random histories, connection histories "
                   "over real sockets) under ASan/UBSan with allocation tracking")
@@ -304,16 +399,26 @@ class C12(DiffProperty):
                   "committed the generator runs only the histories that behave the same with and without them (COMMITTED in props/c12.py: no "
                   "answer for a request awaited without handler, no message behind a skipped one on a stream input, no next(POLLOUT) on a "
                   "datagram socket after a receive, no datagram socket / no close for a connection that has a stream). "
-                  "One reply context per connection history (see modelled). Not covered: realloc failure of the stream write queue "
-                  "(mpt_stream_reply then leaves a partial frame and MPT_STREAMFLAG(MesgActive) behind: docs/C12_replay_reply_enomem.json, "
-                  "outside the assumption 'malloc succeeds', no patch proposed). "
+                  "One reply context per connection history (see modelled). "
+                  "Round 6: when the roll-back paths of mpt_stream_reply were executed for the first time (write queue that cannot "
+                  "grow) three defects showed, patches NOT committed yet, switches False: docs/C12_reply_rollback_active.diff "
+                  "(stream_push.c treats the deletion call mpt_stream_push(srm,1,0) as appended data: MesgActive stays set - every "
+                  "later reply refused - and the returned position is subtracted from the length: SIGSEGV for a position >= 2), "
+                  "docs/C12_reply_rollback_blocks.diff (encode_cobs.c: the deletion keeps the finished COBS blocks of the deleted "
+                  "message, they are glued in front of the next frame), docs/C12_reply_id_partial.diff (stream_reply.c sends a frame "
+                  "with a truncated id when the id was pushed in part; ids of 254/255 bytes only); replays "
+                  "docs/C12_replay_reply_*.json give VIOLATION on /repo. Until they are committed only the Q<n> cases run in which "
+                  "every refused reply is refused before anything was queued, or fits (COMMITTED / q_needs in props/c12.py). "
+                  "The same roll-back through the connection object (replyConnection -> mpt_stream_reply, mpt_connection_push) is not "
+                  "driven: harness/c12_conn.c has no queue limit. The dead branch of stream_reply.c ('ret < mpt_message_length': "
+                  "mpt_stream_append returns the full length or an error) is in the model, never taken. "
                   "C12_conn_request_answered_once needs the transport to accept (stream: no outgoing message being composed). "
                   "Kernel, COBS codec and the stream/outdata buffering below the connection are executed, not modelled (C01/C02/C13). "
                   "mpt_log output and malloc failure are not covered. "
                   "All theorems are closed under the global context (no axioms).")
     technique = ("Coq invariant + refinement proof (reply mechanism -> per-request log; connection layer parametric in the reply machine, "
                  "simulation lifted through it) + differential correspondence check with two harnesses")
-    assumptions = ["malloc succeeds", "the transport's send callback does not re-enter the reply context",
+    assumptions = ["malloc succeeds (except: growth of a stream write queue may be refused - sin mode Q<n>)", "the transport's send callback does not re-enter the reply context",
                    "request ids have the top bit of their first byte clear",
                    "objects are not used after the caller released them",
                    "connection cases: the patches docs/C12_*.diff marked True in COMMITTED are present in the tree under test",
@@ -364,6 +469,15 @@ class C12(DiffProperty):
 
     def shrink_candidates(self, case):
         hdr, ops = self.split(case)
+        if hdr[0] == "nrc":
+            if hdr[2] not in ("null", "-") and len(hdr[2]) > 2:
+                yield "nrc %s %s" % (hdr[1], hdr[2][:len(hdr[2]) // 4 * 2 or 2])
+                yield "nrc %s %s" % (hdr[1], hdr[2][:-2])
+            if abs(int(hdr[1])) > 1:
+                yield "nrc %d %s" % (int(hdr[1]) // 2, hdr[2])
+            return
+        if hdr[0] in ("sinx",):
+            return
         if hdr[0] == "id2buf":
             v, w = int(hdr[1], 16), int(hdr[2])
             for nv in (v >> 8, v >> 1, v & (v - 1) if v else 0, v - 1 if v else 0):
@@ -399,6 +513,11 @@ class C12(DiffProperty):
             for k, o in enumerate(ops):
                 if o[0] != "req":
                     continue
+                for j in (3, 4):
+                    if hdr[2][0] == "Q" and o[j] not in ("null", "-") and len(o[j]) > 2:
+                        yield self.join(hdr, ops[:k] + [o[:j] + [o[j][:-2]] + o[j + 1:]] + ops[k + 1:])
+                if hdr[2][0] == "Q" and len(ops) > 1:
+                    yield self.join(hdr, ops[:k] + ops[k + 1:])
                 if len(o[1]) > 2 * int(hdr[1]) + 2:
                     yield self.join(hdr, ops[:k] + [[o[0], o[1][:-2]] + o[2:]] + ops[k + 1:])
                 if o[2] != "0":
@@ -563,9 +682,46 @@ class C12(DiffProperty):
                     cl.add("sin:short-message")
             if hdr[2] == "0":
                 cl.add("sin:read-only")
+            if hdr[2][0] == "Q":
+                cap, t = int(hdr[2][1:]), case.split()
+                for o in ops:
+                    if o[0] not in ("req", "rqd") or not il or o[1] == "-":
+                        continue
+                    b = bytes.fromhex(o[1])
+                    if len(b) < il or b[0] & 0x80 or not any(b[:il]):
+                        continue
+                    mid = bytes([b[0] | 0x80]) + b[1:il]
+                    reps = [o[3], o[4]][:int(o[2])] if o[0] == "req" else [o[2]]
+                    code = int(o[5] if o[0] == "req" else o[3])
+                    res = [q_attempt(cap, mid + (bytes.fromhex(r) if r not in ("null", "-") else b"")) for r in reps]
+                    gen = q_attempt(cap, mid + bytes([1, (code if code < 0 else 0) & 0xff]))
+                    acc = [r[0] for r in res]
+                    if acc[:1] == [False]:
+                        cl.add("sinq:first-reply-refused")
+                        if res[0][1] == 0:
+                            cl.add("sinq:refused-before-anything-queued")
+                        elif res[0][1] < il:
+                            cl.add("sinq:id-pushed-in-part")
+                        elif res[0][1] == len(mid) + len(bytes.fromhex(reps[0]) if reps[0] not in ("null", "-") else b""):
+                            cl.add("sinq:only-the-delimiter-does-not-fit")
+                        else:
+                            cl.add("sinq:message-pushed-in-part")
+                        if res[0][2]:
+                            cl.add("sinq:rolled-back-with-finished-blocks")
+                        if acc[1:] == [True]:
+                            cl.add("sinq:retry-accepted")
+                    if True not in acc:
+                        cl.add("sinq:generic-answer-" + ("sent" if gen[0] else "refused"))
+                    if acc[:1] == [True]:
+                        cl.add("sinq:first-reply-fits")
             return cl
         if hdr[0] == "sinx":
             cl.add("stream-input-create")
+            return cl
+        if hdr[0] == "nrc":
+            cl.add("no-context-reply")
+            cl.add("nrc:" + ("code-out-of-range" if not -128 <= int(hdr[1]) <= 127 else "no-text" if hdr[2] == "null" else
+                             "debug" if hdr[1] == "0" else "info" if int(hdr[1]) > 0 else "error"))
             return cl
         if hdr[0] == "rsv":
             cl.add("reserve:max=" + hdr[1])
@@ -1403,6 +1559,64 @@ class C12(DiffProperty):
             toks += ["req", hx(msg), str(nrep), reps[0], reps[1], str(code)]
         return " ".join(toks)
 
+    def gen_nrc(self, rng, tier):
+        """mpt_context_reply without reply context: every code class x no text / empty / short / long text"""
+        cs = []
+        texts = ["null", "-", "6869", hx([0x20 + (i * 7) % 0x5f for i in range(40)]), hx([0x41] * 300)]
+        for code in (0, 1, -1, 5, -5, 127, -128, 128, -129, 300, -300):
+            for t in texts:
+                cs.append("nrc %d %s" % (code, t))
+        for _ in range(40 if tier == "quick" else 2000):
+            cs.append("nrc %d %s" % (rng.choice([0, rng.randrange(1, 128), -rng.randrange(1, 129), rng.randrange(-400, 400)]),
+                                     rng.choice(["null", hx([rng.randrange(1, 256) for _ in range(rng.choice([1, 3, 17, 80]))])])))
+        return cs
+
+    def gen_sin_q(self, rng, tier):
+        """stream input whose write queue has exactly n bytes and cannot grow (mode Q<n>): replies that fit, that fail at the id,
+        in the message, at the delimiter (roll-back of mpt_stream_reply), retries and the generic answer after a roll-back"""
+        cs = []
+        # small: id 0001, replies of 0..6 bytes (with and without zero bytes) x every capacity 0..13
+        for cap in range(0, 14):
+            for n in range(0, 7):
+                for pay in ([0x41] * n, [0x41, 0] * (n // 2) + [0x42] * (n % 2)):
+                    p = hx(pay) if pay else rng.choice(["-", "null"])
+                    cs.append("sin 2 Q%d req 00014142 1 %s null 0 req 00024142 1 6f6b null 0" % (cap, p))
+                    if n >= 3:
+                        cs.append("sin 2 Q%d req 00014142 2 %s 61 -3" % (cap, p))
+        # block boundary: replies of 248..258 bytes without zero byte x capacities around the frame size
+        for n in range(248, 259):
+            for cap in (n, n + 2, n + 3, n + 4, n + 5, n + 6) if tier == "quick" else range(n - 2, n + 8):
+                cs.append("sin 2 Q%d req 00014142 2 %s 6f6b 0" % (cap, hx([0x41] * n)))
+        # id pushed in part (needs a queue of fewer bytes than the id takes) / very wide ids up to the block length
+        for il, cap in ((4, 3), (4, 4), (4, 5), (8, 6), (8, 9), (8, 10), (8, 12), (254, 254), (254, 255), (254, 256), (254, 257),
+                        (255, 254), (255, 255), (255, 256), (255, 257), (255, 258), (255, 259)):
+            for first in (1, 0):
+                idb = [first] + [1] * (il - 1)
+                cs.append("sin %d Q%d req %s 1 %s null 0" % (il, cap, hx(idb + [0x41, 0x42]), rng.choice(["null", "-", "61"])))
+        for _ in range(700 if tier == "quick" else 30000):
+            il = rng.choice([1, 2, 2, 2, 3, 4, 8])
+            items, caps = [], []
+            for _ in range(rng.choice([1, 2, 2, 3])):
+                idb = [rng.choice([0, 1, 0x7f])] + [rng.choice(ID_ALPHA) for _ in range(il - 1)]
+                if not any(idb):
+                    idb[-1] = 1
+                reps = []
+                for _ in range(2):
+                    n = rng.choice([0, 1, 2, 3, 5, 9, 20, 60, 252, 253, 254, 255, 300])
+                    z = rng.random()
+                    pay = [(0 if rng.random() < (0.0 if z < 0.4 else 0.1 if z < 0.8 else 0.5) else rng.randrange(1, 256)) for _ in range(n)]
+                    reps.append(hx(pay) if pay else rng.choice(["null", "-"]))
+                    ok, k, cl = q_attempt(10 ** 6, bytes(idb) + bytes(pay))
+                    caps.append(il + len(pay) + 2 + len(pay) // 254)
+                msg = hx(idb + [rng.randrange(256) for _ in range(rng.choice([0, 2]))])
+                if rng.random() < 0.2:
+                    items += ["rqd", msg, reps[0], str(rng.choice([0, 3, -1]))]
+                else:
+                    items += ["req", msg, str(rng.choice([0, 1, 1, 2, 2])), reps[0], reps[1], str(rng.choice([0, 0, 3, -1, -16]))]
+            cap = max(0, rng.choice(caps) + rng.choice([-40, -5, -3, -2, -1, -1, 0, 0, 1, 2])) if rng.random() < 0.85 else rng.randrange(0, 12)
+            cs.append("sin %d Q%d %s" % (il, cap, " ".join(items)))
+        return cs
+
     def gen_sin_ids(self, rng, tier):
         """stream input (stream_input.c has its own copy of the zero test): ids from the boundary alphabet per byte"""
         cs = []
@@ -1430,6 +1644,8 @@ class C12(DiffProperty):
         for _ in range(500 if tier == "quick" else 15000):
             sino.append(self.gen_sin_obj(rng))
         cases += [c for c in sino if con_enabled(c)]
+        cases += self.gen_nrc(rng, tier)
+        cases += [c for c in self.gen_sin_q(rng, tier) if con_enabled(c)]
         cases += self.gen_exhaustive(3 if tier == "quick" else 4)
         nh = 2500 if tier == "quick" else 80000
         for i in range(nh):
